@@ -83,9 +83,14 @@ def generate(ctx):
         samb = samgen.render_sam("REF", L, recs)
         append = rng.random() < 0.6
         s, e = (-1, -1)
-        if rng.random() < 0.3:
+        r = rng.random()
+        if r < 0.2:
             s = rng.randint(1, L // 2)
             e = rng.randint(L // 2, L)
+        elif r < 0.35:
+            s = rng.randint(1, L // 2)          # --start alone
+        elif r < 0.5:
+            e = rng.randint(L // 2, L)          # --end alone
         go = {"id": cid, "op": "samvariants", "sam": cm.b64(samb), "ref": cm.b64(refb if from_file else b""), "anno": cm.b64(annob),
               "suffix": suffix, "ref_from_file": from_file, "start": s, "end": e, "append_snps": append, "aggregate": False,
               "threads": 1 if equalw else rng.choice([1, 2, 4])}
